@@ -128,13 +128,13 @@ def inhB (T : Table) : Nat → List Nat → Nat → V → Bool
         match v with
         | .fn d =>
           (match T.types[d]? with | some (.callable _ _ _) => true | _ => false) &&
-          (match checkRel T .all fuel [] st d t with | some (true, _) => true | _ => false)
+          (match checkRel T .all fuel [] ⟨[], st⟩ d t with | some (true, _) => true | _ => false)
         | _ => false
       | .process _ _ =>
         match v with
         | .proc d =>
           (match T.types[d]? with | some (.process _ _) => true | _ => false) &&
-          (match checkRel T .all fuel [] st d t with | some (true, _) => true | _ => false)
+          (match checkRel T .all fuel [] ⟨[], st⟩ d t with | some (true, _) => true | _ => false)
         | _ => false
 
 /-- `v` inhabits type `t` under the enclosing boundaries `st`. -/
